@@ -551,6 +551,24 @@ func (t *Table) Put(input *types.PutItemInput) (map[string]*types.Item, error) {
 	return item, nil
 }
 
+// ValidateWriteRequest checks, without changing anything, that a put of the item (or a delete of the key when
+// deleting is true) would be accepted: the table key and the keys of the secondary indexes must be valid
+func (t *Table) ValidateWriteRequest(item map[string]*types.Item, deleting bool) error {
+	if _, err := t.KeySchema.GetKey(t.AttributesDef, item); err != nil {
+		return types.NewError("ValidationException", err.Error(), nil)
+	}
+
+	if deleting {
+		return nil
+	}
+
+	if err := t.validateIndexKeys(item); err != nil {
+		return types.NewError("ValidationException", err.Error(), nil)
+	}
+
+	return nil
+}
+
 func (t *Table) validateIndexKeys(item map[string]*types.Item) error {
 	for _, index := range t.Indexes {
 		if _, err := index.keySchema.GetKey(t.AttributesDef, item); err != nil {
